@@ -18,9 +18,10 @@
 (***************************************************************************)
 EXTENDS WriterLifecycle
 
-VARIABLE gs
+VARIABLES gs,      \* what GetState must return
+          budget   \* [force, again, flushes, stops]: bounds on the steps that are always enabled (keeps random walks interesting)
 WdKindsOne == <<"spl">>
-rvars == <<vars, gs>>
+rvars == <<vars, gs, budget>>
 
 GsNow == [sv \in Svc |-> [m \in {"default", "sync", "async"} |-> MMState(sv, m)]]
 
@@ -115,16 +116,30 @@ RWake(w) == Wake(w)
 RExit(w) == ~flush[w] /\ Exit(w)
 RForce(w, st) == wst[w] # st /\ ForceState(w, st)
 
-Base ==
-    \/ \E sv \in Svc : RInit(sv) \/ RInitAgain(sv) \/ RRun(sv) \/ RRunAgain(sv) \/ RStop(sv) \/ RPlanFlush(sv)
-    \/ \E r \in Reqs, d \in Dsns, h \in Hdrs : \E nd \in [Kinds -> Nodes] : \E u \in [Kinds -> 0..(RG - 1)] :
-          RRequest(r, d, h, nd, u)
-    \/ \E w \in WK : \/ RTimerFire(w) \/ RWake(w) \/ RExit(w) \/ RSwap(w)
-                     \/ \E ok \in BOOLEAN : RDoReturn(w, ok)
-                     \/ \E st \in {"IDLE", "CLOSING"} : RForce(w, st)
+G == gs' = GsNow' /\ UNCHANGED budget
+Spend(f) == budget[f] > 0 /\ budget' = [budget EXCEPT ![f] = @ - 1] /\ gs' = GsNow'
+InitG(sv)      == RInit(sv) /\ G
+InitAgainG(sv) == RInitAgain(sv) /\ Spend("again")
+RunG(sv)       == RRun(sv) /\ G
+RunAgainG(sv)  == RRunAgain(sv) /\ Spend("again")
+StopG(sv)      == Cardinality({ r \in Reqs : rst[r] # "new" }) >= 2 /\ RStop(sv) /\ Spend("stops")
+PlanFlushG(sv) == RPlanFlush(sv) /\ Spend("flushes")
+RequestG(r, d, h, nd, u) == RRequest(r, d, h, nd, u) /\ G
+TimerFireG(w)  == RTimerFire(w) /\ G
+WakeG(w)       == RWake(w) /\ G
+ExitG(w)       == RExit(w) /\ G
+SwapG(w)       == RSwap(w) /\ G
+DoReturnG(w, ok) == RDoReturn(w, ok) /\ G
+ForceG(w, st)  == wrun[w] /\ RForce(w, st) /\ Spend("force")
 
-ReplayNext == Base /\ gs' = GsNow'
-ReplayInit == Init /\ gs = GsNow
+ReplayNext ==
+    \/ \E sv \in Svc : InitG(sv) \/ InitAgainG(sv) \/ RunG(sv) \/ RunAgainG(sv) \/ StopG(sv) \/ PlanFlushG(sv)
+    \/ \E r \in Reqs, d \in Dsns, h \in Hdrs : \E nd \in [Kinds -> Nodes] : \E u \in [Kinds -> 0..(RG - 1)] :
+          RequestG(r, d, h, nd, u)
+    \/ \E w \in WK : \/ TimerFireG(w) \/ WakeG(w) \/ ExitG(w) \/ SwapG(w)
+                     \/ \E ok \in BOOLEAN : DoReturnG(w, ok)
+                     \/ \E st \in {"IDLE", "CLOSING"} : ForceG(w, st)
+ReplayInit == Init /\ gs = GsNow /\ budget = [force |-> 3, again |-> 2, flushes |-> 3, stops |-> 2]
 ReplaySpec == ReplayInit /\ [][ReplayNext]_rvars
 
 \* every composite step is a sequence of steps of the full model: the invariants of the full model hold
